@@ -144,6 +144,9 @@ def execute(scn):
 
     def do_call(call, si):
         nonlocal n_calls, accumulated_into_existing
+        from ..world import require_valid
+
+        require_valid(model, call)
         if call["api"] == "backward":
             exp = expect_backward(model, call, eps)
             updates = dict(exp["updates"])
@@ -172,7 +175,7 @@ def execute(scn):
         stats["sweeps"] = stats.get("sweeps", 0) + count_sweeps(world.log.events)
         events.append([si, "call", out["ok"], out["exc"]])
         if not out["ok"]:
-            viols.append({"clause": "valid_call_raised", "step": si, "details": out, "key": {"exc": out["exc"]}})
+            viols.append({"clause": "valid_call_raised", "step": si, "details": out, "key": {"exc": out["exc"], "msg": (out.get("msg") or "")[:40]}})
             return False
         after = world.grads()
         # (2) aggregator's own tensors
